@@ -1,6 +1,7 @@
 package main
 
 import (
+	"bytes"
 	"context"
 	"crypto/ed25519"
 	"math/rand"
@@ -112,6 +113,17 @@ func scenNet(rng *rand.Rand, tr *sim.Trace, seg int, events int) {
 						dst.h.inFromBytes(dst.name, nd.addr, of.B)
 						if !dst.h.conn.Inject(of.B, nd.addr, 60*time.Second) {
 							fail("node %s did not take a datagram", dst.name)
+						}
+						if bytes.Contains(of.B, []byte("13:announce_peer")) || bytes.Contains(of.B, []byte("1:q3:put")) {
+							// store effects happen from goroutines: let them finish and log them before anything
+							// else is delivered, so that the observer's view of the stores is never behind
+							if !sim.WaitQuiet(60 * time.Second) {
+								fail("store callbacks did not finish")
+							}
+							for _, c := range dst.h.takeCbs() {
+								dst.h.node = dst.name
+								dst.h.emitCb(c)
+							}
 						}
 					}
 					moved = true
